@@ -294,19 +294,71 @@ Proof.
   rewrite (st_off "Orphanage") by (cbn; tauto). cbn [bind].
   rewrite (st_off "MarkModules") by (cbn; tauto). cbn [bind]. reflexivity.
 Qed.
+
+(* without the checks, the checking / bundle entries do nothing: only the three rewriting passes remain *)
+Definition off_kinds : list string := ["Orphanage"; "InstBundleElabPass"; "ConnTypes"; "BundleFlattener"; "MarkModules"]%string.
+Definition is_off (kind : string) : bool := existsb (String.eqb kind) off_kinds.
+Definition rw3 : list string := ["ResolvePortRefs"; "ArrayFlattener"; "SliceResolver"]%string.
+
+Lemma is_off_In kind : is_off kind = true -> In kind off_kinds.
+Proof. unfold is_off. intros H. apply existsb_exists in H. destruct H as [x [Hx E]]. apply String.eqb_eq in E. subst. exact Hx. Qed.
+
+Lemma chain_filter_off : forall ks l,
+  chain (map (fun kind => F false kind) ks) l = chain (map (fun kind => F false kind) (filter (fun k => negb (is_off k)) ks)) l.
+Proof.
+  induction ks as [|k ks IH]; intros l; cbn [map filter chain]; [reflexivity|].
+  destruct (is_off k) eqn:E; cbn [negb].
+  - rewrite (st_off k l (is_off_In k E)). cbn [bind]. apply IH.
+  - cbn [map chain]. destruct (itrav (F false k) 0 l); cbn [bind]; [apply IH|reflexivity].
+Qed.
+
+Theorem elab_model_chain3 : elab_model xi d = (l <- chain (map (fun kind => F false kind) rw3) (d_mods d) ;; Ok (D l)).
+Proof.
+  unfold elab_model.
+  assert (PK (d_mods d)) as P0 by reflexivity.
+  assert (d = D (d_mods d)) as Ed by (unfold D; apply design_eta).
+  unfold rw3. cbn [map chain].
+  rewrite Ed at 1. rewrite (st_portrefs false _ P0).
+  destruct (itrav (F false "ResolvePortRefs") 0 (d_mods d)) as [l1|e] eqn:H1; cbn [bind]; [|reflexivity].
+  pose proof (PK_step _ _ _ _ P0 H1) as P1.
+  rewrite (st_arrays false _ P1).
+  destruct (itrav (F false "ArrayFlattener") 0 l1) as [l2|e] eqn:H3; cbn [bind]; [|reflexivity].
+  rewrite (st_slices false).
+  destruct (itrav (F false "SliceResolver") 0 l2) as [l3|e] eqn:H4; cbn [bind]; reflexivity.
+Qed.
 End Stages.
 
 (* ------------------------------------------------------------------------------------------ the regenerated table *)
-(* the effective entries of Hdl21Gen.DefaultPasses are the ten kinds above, in this order *)
-Lemma default_kinds : map kind_at (eff_stages cP) = kinds10.
-Proof. vm_compute. reflexivity. Qed.
+(* the kinds of the effective entries of Hdl21Gen.DefaultPasses, in order: what the manager really runs *)
+Definition tree_kinds : list string := map kind_at (eff_stages cP).
 
-Lemma fns_stage_fn ck xi d : map (stage_fn ck xi d) (eff_stages cP) = fns xi d ck.
-Proof. unfold fns. rewrite <- default_kinds, map_map. reflexivity. Qed.
+Fixpoint kinds_eqb (a b : list string) : bool :=
+  match a, b with
+  | [], [] => true
+  | x :: a', y :: b' => String.eqb x y && kinds_eqb a' b'
+  | _, _ => false
+  end.
+Lemma kinds_eqb_eq : forall a b, kinds_eqb a b = true -> a = b.
+Proof.
+  induction a as [|x a IH]; intros [|y b] H; cbn [kinds_eqb] in H; try discriminate; [reflexivity|].
+  apply andb_prop in H. destruct H as [H1 H2]. apply String.eqb_eq in H1. subst. f_equal. apply IH. exact H2.
+Qed.
+
+(* the two facts about the table the bridge theorems need (boolean; Props/C07ETable.v proves them for the tree under test,
+   the correspondence run evaluates them on every run):
+     checked_list_ok    the effective entries are exactly the ten kinds of Elaborator.default, in order
+     unchecked_list_ok  among the effective entries the rewriting passes are ResolvePortRefs, ArrayFlattener, SliceResolver,
+                        in this order, and every other entry is a checking / bundle / marking entry *)
+Definition checked_list_ok : bool := kinds_eqb tree_kinds kinds10.
+Definition unchecked_list_ok : bool := kinds_eqb (filter (fun k => negb (is_off k)) tree_kinds) rw3.
+Definition list_ok (ck : bool) : bool := if ck then checked_list_ok else unchecked_list_ok.
+
+Lemma fns_stage_fn ck xi d : map (stage_fn ck xi d) (eff_stages cP) = map (fun kind j m => kind_fn ck xi kind j d m) tree_kinds.
+Proof. unfold tree_kinds. rewrite map_map. reflexivity. Qed.
 
 (* module j of the written design, through the whole list: the manager's `elab_mod` *)
 Theorem pm_elab_mod ck xi d j m : nth_error (d_mods d) j = Some m ->
-  cont_result (elab_mod ck xi d j) = pm (fns xi d ck) j m.
+  cont_result (elab_mod ck xi d j) = pm (map (fun kind j m => kind_fn ck xi kind j d m) tree_kinds) j m.
 Proof.
   intros Hj. unfold elab_mod. rewrite pm_run_stages, fns_stage_fn. unfold cinit. rewrite Hj. reflexivity.
 Qed.
@@ -318,7 +370,7 @@ Definition per_module (ck : bool) (xi : xinfo) (d d3 : design) : Prop :=
   forall j m, nth_error (d_mods d) j = Some m -> exists m3, nth_error (d_mods d3) j = Some m3 /\ elab_mod ck xi d j = cok m3.
 
 Lemma chain_D_per_module ck xi d d3 :
-  (l <- chain (fns xi d ck) (d_mods d) ;; Ok (D d l)) = Ok d3 <-> per_module ck xi d d3.
+  (l <- chain (map (fun kind j m => kind_fn ck xi kind j d m) tree_kinds) (d_mods d) ;; Ok (D d l)) = Ok d3 <-> per_module ck xi d d3.
 Proof.
   split.
   - intros H. apply bind_ok in H. destruct H as [l [Hc H]]. inversion H; subst d3. unfold D, per_module. cbn [d_mods d_top].
@@ -326,18 +378,24 @@ Proof.
     intros j m Hj. destruct (Hn j m Hj) as [m' [Hj' Hp]]. exists m'. split; [exact Hj'|].
     apply cont_result_cok. rewrite (pm_elab_mod ck xi d j m Hj). exact Hp.
   - intros [Ht [Hl Hn]].
-    assert (chain (fns xi d ck) (d_mods d) = Ok (d_mods d3)) as Hc.
+    assert (chain (map (fun kind j m => kind_fn ck xi kind j d m) tree_kinds) (d_mods d) = Ok (d_mods d3)) as Hc.
     { apply chain_per_module. split; [exact Hl|]. intros j m Hj. destruct (Hn j m Hj) as [m3 [Hj3 He]]. exists m3. split; [exact Hj3|].
       rewrite <- (pm_elab_mod ck xi d j m Hj). apply cont_result_cok. exact He. }
     rewrite Hc. cbn [bind]. unfold D. rewrite <- Ht. destruct d3; reflexivity.
 Qed.
 
-Theorem checked_elab_per_module xi d d3 : hier_design d = Ok tt ->
+Theorem checked_elab_per_module xi d d3 : checked_list_ok = true -> hier_design d = Ok tt ->
   (checked_elab xi d = Ok d3 <-> per_module true xi d d3).
-Proof. intros Hh. rewrite checked_elab_chain, Hh. cbn [bind]. apply chain_D_per_module. Qed.
+Proof.
+  intros Hk Hh. rewrite <- chain_D_per_module. apply kinds_eqb_eq in Hk. rewrite Hk.
+  rewrite checked_elab_chain, Hh. cbn [bind]. unfold fns. reflexivity.
+Qed.
 
-Theorem elab_model_per_module xi d d3 : elab_model xi d = Ok d3 <-> per_module false xi d d3.
-Proof. rewrite elab_model_chain. apply chain_D_per_module. Qed.
+Theorem elab_model_per_module xi d d3 : unchecked_list_ok = true -> (elab_model xi d = Ok d3 <-> per_module false xi d d3).
+Proof.
+  intros Hk. rewrite <- chain_D_per_module. apply kinds_eqb_eq in Hk. rewrite (chain_filter_off xi d tree_kinds), Hk.
+  rewrite elab_model_chain3. reflexivity.
+Qed.
 
 Lemma checked_elab_unchecked xi d d3 : checked_elab xi d = Ok d3 -> elab_model xi d = Ok d3.
 Proof.
@@ -347,3 +405,7 @@ Proof.
   apply bind_ok in H. destruct H as [u7 [_ H]]. apply bind_ok in H. destruct H as [u8 [_ H]]. apply bind_ok in H. destruct H as [u9 [_ H]].
   inversion H; subst d3'. rewrite H1. cbn [bind]. rewrite H2. cbn [bind]. exact H3.
 Qed.
+
+(* with the ten-entry list, the rewriting entries are the three passes: the first table fact implies the second *)
+Lemma checked_list_unchecked : checked_list_ok = true -> unchecked_list_ok = true.
+Proof. unfold checked_list_ok, unchecked_list_ok. intros H. apply kinds_eqb_eq in H. rewrite H. reflexivity. Qed.
